@@ -356,7 +356,7 @@ def plan_c01(prop, tier, seed, t0):
     # gone, a publish whose caller went away) must not lose anything either
     return core_check(prop, tier, seed, t0, over, explore=[("mixed", 48, 1500), ("data", 24, 1500), ("consumers", 24, 1500)], caps=(16, 1, 2),
                       extra_scenarios=lambda quick, sd: extra(quick, sd)
-                      + cancel_scenarios(sd, kinds={"Pull", "Ack", "ModAck", "ModAck30", "Publish", "PublishBig"}, quick=quick)
+                      + cancel_scenarios(sd, kinds={"Pull", "Ack", "ModAck", "ModAck30", "Publish", "PublishBig", "DeleteSub"}, quick=quick)
                       + refused_next_to_live_scenarios(sd, quick) + twins_scenarios(sd, quick) + idle_scenarios(sd, quick),
                       thorough={"mc": dict(MaxOps=7, MaxMsgs=3)}, turns=True)
 
@@ -439,6 +439,52 @@ def refused_next_to_live_scenarios(seed, quick):
         s2 = scn("refused-live-%d" % k, steps, seed=seed * 100 + k, cap=(16, 1, 2)[k % 3])
         s2["meta"]["proj"][TP] = "p2"
         out.append(s2)
+    return out
+
+
+def prefix_project_scenarios(seed, quick):
+    """Projects whose ids are prefixes of each other (p, p1, p1x, p10): a project is its WHOLE id.
+    Listings of one never show resources of another, and a subscription is never created on a topic
+    of another project - also not of one whose id merely begins (or ends) the same way."""
+    out = []
+    projects = ["p1", "p1x", "p", "p10"]
+    for k in range(2 if quick else 6):
+        rot = projects[k % 4:] + projects[:k % 4]
+        extra = {}
+        steps = []
+        for pr in rot:
+            for j in (1, 2):
+                tn = "projects/%s/topics/t%d" % (pr, j)
+                extra[tn] = pr
+                steps.append(call(1, op="CreateTopic", name=tn))
+        for pr in rot:
+            for j in (1, 2):
+                sn = "projects/%s/subscriptions/s%d" % (pr, j)
+                extra[sn] = pr
+                steps.append(call(1, op="CreateSub", name=sn, topic="projects/%s/topics/t1" % pr, ack=10))
+        size = (0, 1, 3, 1000)[k % 4]
+        walks = []
+        for pr in rot:
+            walks.append({"do": "walk", "c": 1, "kind": "topics", "arg": "projects/" + pr, "size": size})
+            walks.append({"do": "walk", "c": 1, "kind": "subs", "arg": "projects/" + pr, "size": size})
+            walks.append({"do": "walk", "c": 1, "kind": "topicsubs", "arg": "projects/%s/topics/t1" % pr, "size": size})
+            walks.append({"do": "walk", "c": 1, "kind": "topicsubs", "arg": "projects/%s/topics/t2" % pr, "size": size})
+        # (even k: the listings come first, so that a leak between projects is judged as what it is
+        # before a wrongly accepted create is)
+        if k % 2 == 0:
+            steps += walks
+        # creates across projects that share a beginning: all refused, nothing created
+        for a, b in [("p1", "p1x"), ("p1x", "p1"), ("p", "p1"), ("p1", "p"), ("p10", "p1"), ("p1", "p10")]:
+            sn = "projects/%s/subscriptions/s9" % a
+            extra[sn] = a
+            steps.append(call(2, op="CreateSub", name=sn, topic="projects/%s/topics/t2" % b, ack=10))
+            steps.append(call(2, op="GetSub", name=sn))
+        steps.append(call(1, op="Publish", topic="projects/p1/topics/t1", msgs=[{"p": "pp%d" % k}]))
+        steps += walks
+        for pr in rot:
+            steps.append(call(2, op="Pull", sub="projects/%s/subscriptions/s1" % pr, max=5, ri=True))
+        steps.append({"do": "drain", "c": 9})
+        out.append(scn("prefix-projects-%d" % k, steps, seed=seed * 10 + k, extra_proj=extra))
     return out
 
 
@@ -651,6 +697,11 @@ def stream_ctrl_scenarios(seed, quick):
         ("extend+nack", [dict(mods=[[{"d": 1}, 30], [{"d": 2}, 0]])]),
         ("nack+extend+ack", [dict(acks=[{"d": 3}], mods=[[{"d": 2}, 0], [{"d": 1}, 45]])]),
         ("nack-all", [dict(mods=[[{"d": 1}, 0], [{"d": 2}, 0], [{"d": 3}, 0]])]),
+        # one delivery named more than once in a message, the ones behind it with other seconds:
+        # every delivery gets the seconds written next to ITS id
+        ("repeat-then-extend", [dict(mods=[[{"d": 1}, 15], [{"d": 1}, 15], [{"d": 2}, 60]])]),
+        ("repeat-then-nack", [dict(mods=[[{"d": 2}, 30], [{"d": 2}, 30], [{"d": 1}, 0], [{"d": 3}, 45]])]),
+        ("repeat-acks", [dict(acks=[{"d": 1}, {"d": 1}], mods=[[{"d": 2}, 20], [{"d": 3}, 20], [{"d": 3}, 50]])]),
     ]
     for k, (name, msgs) in enumerate(shapes):
         for cap in ((16, 1) if quick else (16, 1, 2)):
@@ -881,7 +932,7 @@ def plan_c10(prop, tier, seed, t0):
     return core_check(prop, tier, seed, t0, over, explore=[("churn", 64, 3000), ("mt:churnrace", 300, 20000), ("mt:cdrace", 300, 20000)],
                       extra_scenarios=lambda quick, sd: inflight_delete_scenarios(sd, quick) + inflight_topic_delete_scenarios(sd, quick)
                       + empty_batch_scenarios(sd) + ack_deadline_scenarios(sd, quick) + refused_next_to_live_scenarios(sd, quick)
-                      + listing_walk_scenarios(sd, quick),
+                      + listing_walk_scenarios(sd, quick) + prefix_project_scenarios(sd, quick),
                       thorough={"mc": dict(MaxOps=6)}, turns=True)
 
 
@@ -893,7 +944,7 @@ def plan_c11(prop, tier, seed, t0):
     return core_check(prop, tier, seed, t0, over, explore=[("churn", 64, 3000), ("mt:churnrace", 300, 20000), ("mt:cdrace", 300, 20000)],
                       extra_scenarios=lambda quick, sd: cancel_scenarios(sd, kinds={"DeleteSub", "DeleteTopic", "CreateSub"}, quick=quick)
                       + inflight_delete_scenarios(sd, quick) + inflight_topic_delete_scenarios(sd, quick)
-                      + pinned_topic_scenarios(sd, quick) + orphan_scenarios(sd, quick) + listing_walk_scenarios(sd, quick)
+                      + pinned_topic_scenarios(sd, quick) + orphan_scenarios(sd, quick) + listing_walk_scenarios(sd, quick) + prefix_project_scenarios(sd, quick)
                       + refused_next_to_live_scenarios(sd, quick),
                       thorough={"mc": dict(MaxOps=7)}, turns=True)
 
@@ -974,7 +1025,7 @@ def plan_c13(prop, tier, seed, t0):
             out.append({"id": "c13-big-%d" % i, "cap": 16, "seed": seed + i, "phase": 0,
                         "meta": {"clock": "paused", "proj": proj, "src": "big"}, "steps": steps})
         return out
-    return core_check(prop, tier, seed, t0, over, extra_scenarios=lambda quick, sd: extra(quick, sd) + hostile_token_scenarios(sd),
+    return core_check(prop, tier, seed, t0, over, extra_scenarios=lambda quick, sd: extra(quick, sd) + hostile_token_scenarios(sd) + prefix_project_scenarios(sd, quick),
                       explore=[("churn", 24, 500)], thorough={"mc": dict(MaxOps=7)})
 
 
@@ -1613,6 +1664,20 @@ def c06_scenarios(n_seeds, seed):
             gate0, consumer, {"do": "settle"},
             {"do": "advance", "ms": 1300}, gate_open, {"do": "settle"}, Q, {"do": "advance", "ms": 300}, Q]
             + finish_consumer + [Q, {"do": "drain", "c": 9}], seed=sd, cap=cap))
+        # W16: an acknowledgement / extension of ANOTHER delivery is handled by the actor after a
+        # delivery's deadline has passed and before the expiry itself is (the actor is held with the
+        # request taken from its mailbox while the clock crosses the deadline): the expired message
+        # still reaches the waiting consumer
+        late_req = (start("n", 4, op="Ack", sub=S1, acks=[{"d": 2}]), start("n", 4, op="ModAck", sub=S1, acks=[{"d": 2}], secs=30),
+                    start("n", 4, op="Ack", sub=S1, acks=[{"d": 2}, {"d": 2}]))[k % 3]
+        out.append(scn("c06-W16-%d" % k, pre + [
+            call(2, op="Publish", topic=T1, msgs=[{"p": "w16-%d-a" % k}, {"p": "w16-%d-b" % k}]), call(2, op="Pull", sub=S1, max=1, ri=True),
+            {"do": "advance", "ms": 5000}, call(2, op="Pull", sub=S1, max=1, ri=True),
+            consumer, {"do": "settle"},
+            {"do": "advance", "ms": 4000 + 100 * (k % 5)},
+            gate0, late_req, {"do": "settle"},
+            {"do": "advance", "ms": 1300}, gate_open, {"do": "settle"}, Q, {"do": "advance", "ms": 300}, Q]
+            + finish_consumer + [Q, {"do": "drain", "c": 9}], seed=sd, cap=cap))
         # W13: a waiting Pull whose batch limit is zero as a 16-bit value, queued AHEAD of an ordinary
         # consumer: the wake-up it gets must not be swallowed
         zero = (0, 65536, 131072, -2147483648)[k % 4]
@@ -1959,13 +2024,74 @@ def plan_c18(prop, tier, seed, t0):
     return 0
 
 
+# The scripted model the real code is replayed against refines the unscripted FlowControlInd.tla
+# (whose invariant Apalache proves inductive): the operation a mutator is in, or did last, is read
+# off the script; "not observed yet" (-1) maps to "not below".
+FLOW_REFINEMENT = r"""SignOf(o) == IF o.op = "inc" THEN 1 ELSE -1
+CurIdx(m) == IF pc[m] \in {"am", "nw"} THEN ip[m] ELSE ip[m] - 1
+Ind == INSTANCE FlowControlInd WITH
+    parked <- {parked[i] : i \in 1..Len(parked)},
+    pc <- [p \in DOMAIN pc |-> IF pc[p] = "end" THEN "ab" ELSE pc[p]],
+    obsM <- [w \in Waiters |-> IF obsM[w] = -1 THEN MaxMsgs ELSE obsM[w]],
+    obsB <- [w \in Waiters |-> IF obsB[w] = -1 THEN MaxBytes ELSE obsB[w]],
+    opS <- [m \in Mutators |-> IF CurIdx(m) = 0 THEN 1 ELSE SignOf(Script[m][CurIdx(m)])],
+    opB <- [m \in Mutators |-> IF CurIdx(m) = 0 THEN 0 ELSE Script[m][CurIdx(m)].b],
+    opM <- [m \in Mutators |-> IF CurIdx(m) = 0 THEN 0 ELSE Script[m][CurIdx(m)].m]
+RefinesInd == Ind!Spec
+IndInvHolds == Ind!IndInv
+"""
+
+
+def flow_inductive(work, quick):
+    """C19 beyond the TLC bound: Apalache discharges that IndInv of FlowControlInd.tla is inductive and
+    implies C19_NoMiss and C19_Sound (any number of inc/dec operations, any integer deltas and limits,
+    the process sets of ConstInit).  A design mutation (Notified created after the re-check) must be refuted."""
+    spec = os.path.join(V.SPEC, "FlowControlInd.tla")
+    outd = os.path.join(work, "apalache")
+    res = {}
+
+    def run(tag, args, module):
+        t = time.time()
+        rc, out = V.sh(["timeout", "900", "apalache-mc", "check", "--out-dir=" + outd, "--cinit=ConstInit"] + args + [module],
+                       timeout=960, cwd=work)
+        res[tag] = round(time.time() - t, 1)
+        return out
+    for tag, args in (("init_implies_inv", ["--init=Init", "--inv=IndInv", "--length=0"]),
+                      ("inv_inductive", ["--init=IndInit", "--inv=IndInv", "--length=1"]),
+                      ("inv_implies_c19", ["--init=IndInit", "--inv=Props", "--length=0"])):
+        out = run(tag, args, spec)
+        if "EXITCODE: OK" not in out or "The outcome is: NoError" not in out:
+            raise V.ToolError("Apalache did not discharge %s for FlowControlInd.tla:\n%s" % (tag, out[-2500:]))
+    # vacuity control: the same invariant is NOT inductive for the design with the Notified future
+    # created after the re-check
+    s = open(spec).read().replace("MODULE FlowControlInd", "MODULE FlowControlIndMut")
+    for old, new in (('LoadMsgs(w, "c1m", "c1b", "mk")', 'LoadMsgs(w, "c1m", "c1b", "c2m")'),
+                     ('LoadBytes(w, "c1b", "done", "mk")', 'LoadBytes(w, "c1b", "done", "c2m")'),
+                     ('LoadMsgs(w, "c2m", "c2b", "aw")', 'LoadMsgs(w, "c2m", "c2b", "mk")'),
+                     ('LoadBytes(w, "c2b", "done", "aw")', 'LoadBytes(w, "c2b", "done", "mk")'),
+                     ('    /\\ pc\' = [pc EXCEPT ![w] = "c2m"]\n    /\\ UNCHANGED <<bytes, msgs, gen, parked, obsM', '    /\\ pc\' = [pc EXCEPT ![w] = "aw"]\n    /\\ UNCHANGED <<bytes, msgs, gen, parked, obsM'),
+                     ('THEN /\\ pc\' = [pc EXCEPT ![w] = "mk"]', 'THEN /\\ pc\' = [pc EXCEPT ![w] = "c2m"]'),
+                     ('    /\\ sst\' = [sst EXCEPT ![w] = "none"]\n    /\\ pc\' = [pc EXCEPT ![w] = "mk"]', '    /\\ sst\' = [sst EXCEPT ![w] = "none"]\n    /\\ pc\' = [pc EXCEPT ![w] = "c2m"]'),
+                     ('pc[w] \\in {"c2m", "c2b", "aw"} => sst[w] = "init"', 'pc[w] \\in {"aw"} => sst[w] = "init"')):
+        if s.count(old) != 1:
+            raise V.ToolError("FlowControlInd.tla changed: the design mutation no longer applies (%s)" % old[:40])
+        s = s.replace(old, new)
+    mut = os.path.join(work, "FlowControlIndMut.tla")
+    open(mut, "w").write(s)
+    out = run("mutant_refuted", ["--init=IndInit", "--inv=IndInv", "--length=1"], mut)
+    if "violated" not in out or "The outcome is: Error" not in out:
+        raise V.ToolError("vacuity: IndInv is inductive for the mutated flow-control design:\n" + out[-1500:])
+    shutil.rmtree(outd, ignore_errors=True)
+    return res
+
+
 def flow_module(work, name, waiters, scripts):
     mod = "MCF_" + name
     def rec(o):
         return '[op |-> "%s", b |-> %d, m |-> %d]' % (o["op"], o["b"], o["m"])
     arms = " [] ".join('m = "%s" -> <<%s>>' % (m, ", ".join(rec(o) for o in ops)) for m, ops in scripts.items())
     with open(os.path.join(work, mod + ".tla"), "w") as f:
-        f.write("---- MODULE %s ----\nEXTENDS FlowControl\nScriptDef == [m \\in Mutators |-> CASE %s]\n====\n" % (mod, arms))
+        f.write("---- MODULE %s ----\nEXTENDS FlowControl\nScriptDef == [m \\in Mutators |-> CASE %s]\n%s====\n" % (mod, arms, FLOW_REFINEMENT))
     with open(os.path.join(work, "T" + mod + ".tla"), "w") as f:
         f.write("---- MODULE T%s ----\nEXTENDS TraceFlow\nScriptDef == [m \\in Mutators |-> CASE %s]\n====\n" % (mod, arms))
     return mod
@@ -2025,14 +2151,15 @@ def plan_c19(prop, tier, seed, t0):
     n_sched = 0
     results = []
     samples = []
+    inductive = flow_inductive(work, quick)
     for (name, waiters, scripts, maxb, maxm, initb, initm) in configs:
         mod = flow_module(work, name, waiters, scripts)
         consts = dict(Waiters=set(waiters), Mutators=set(scripts.keys()), MaxBytes=maxb, MaxMsgs=maxm, InitBytes=initb, InitMsgs=initm,
                       NotifiedAfterCheck=False, NotifyOneInsteadOfWaiters=False)
         # 1. exhaustive model check (safety + liveness) and one history per terminal state
         all_behaviours = name in ("e", "f", "g")
-        rc, out = flow_run(work, mod, "Spec", consts, invariants=["TypeOK", "C19_NoMiss", "C19_Sound", "EmitSched"],
-                           properties=[] if all_behaviours else ["C19_AllWoken"], view=None if all_behaviours else "View")
+        rc, out = flow_run(work, mod, "Spec", consts, invariants=["TypeOK", "C19_NoMiss", "C19_Sound", "IndInvHolds", "EmitSched"],
+                           properties=["RefinesInd"] if all_behaviours else ["C19_AllWoken", "RefinesInd"], view=None if all_behaviours else "View")
         st = V.parse_mc(out)
         if not st:
             raise V.ToolError("TLC failed on FlowControl config %s:\n%s" % (name, out[-2000:]))
@@ -2120,6 +2247,8 @@ def plan_c19(prop, tier, seed, t0):
                 "rule": "one evaluation = one TLC behaviour of FlowControl.tla forced on the real FlowControl by the thread-per-process scheduler "
                         "(sync points before every atomic access), or one free-running stress job; distinct by step sequence; non-trivial = forced schedule",
                 "model_steps_replayed_on_real_code": steps, "schedules_where_code_left_the_model(drift)": drift,
+                "inductive_invariant(FlowControlInd.tla, Apalache, seconds per obligation)": inductive,
+                "refinement": "every scripted configuration is checked by TLC to refine FlowControlInd (PROPERTY RefinesInd, INVARIANT IndInvHolds)",
                 "build_s": round(build_s, 1), "exhaustive": False}
     wall = time.time() - t0
     V.write_evidence(prop, tier, seed, "model_checking", coverage,
